@@ -471,6 +471,31 @@ def run(ctx):
     r4 = ctx.rule("C06.R4", "kernel/TLS verdicts map to states: closed only under the documented conditions")
     r6 = ctx.rule("C06.R6", "end-of-stream is concluded only from a read")
     classify_closed(P, r4, r6)
+    # a read that returns 0 means end-of-stream only if bytes were asked for: the byte-stream receive ops must not hand a
+    # zero capacity to recv()/SSL_read() (their 0 would be taken for the peer's close and the connection marked closed)
+    from .. import bounds as B
+    engz = B.Engine(P)
+    nrd = 0
+    for t in tables:
+        if t.proto not in ("btcp", "btls"):
+            continue
+        f = t.slots["receive"]
+        fb = None
+        for c in f.calls():
+            n = f.nodes[c]
+            if n.get("callee") not in ("recv", "read", "SSL_read", "recvfrom"):
+                continue
+            nrd += 1
+            r4.instance("%s: %s" % (f.qname, f.show(c)[:40]))
+            fb = fb or B.FnBounds(engz, f)
+            v = fb.lin(n["args"][2])
+            if v is not None and fb.prove_le(fb.before.get(c, B.Facts()), B.lin_const(1), v):
+                r4.ok("%s: the read is reached only with a capacity >= 1, so its 0 is the peer's close" % f.qname, "difference constraints")
+            else:
+                r4.violation("%s:zero-capacity-read" % f.name, "%s can ask %s for 0 bytes; the 0 it then returns is taken for end-of-stream and the connection is "
+                             "marked closed although the peer is connected and data is waiting: that data is never delivered" % (f.name, n["callee"]), loc=f.loc(c))
+    if nrd < 2:
+        raise Broken("C06.R4: only %d kernel/TLS reads found in the byte-stream receive ops" % nrd)
     # a messaging receive returns 0 only as the sub-socket's result
     for t in tables:
         if t.proto not in ("tcp", "tls"):
